@@ -118,3 +118,32 @@ func PrintControls(prop string) int {
 	}
 	return 0
 }
+
+// RunOtherArch repeats the property's check with the sources loaded for a
+// 32-bit target (GOARCH=386: `int` - the type of CPU.IM, of slice lengths and
+// of indices - is 32 bits wide, and files selected by build constraints may
+// differ) and records the verdict as one more obligation.  Thorough tier only.
+func RunOtherArch(prop string, r *ev.Report) {
+	self, err := os.Executable()
+	if err != nil {
+		r.Undecide(prop+"/goarch=386", "OTHER-ARCH", "-", err.Error())
+		return
+	}
+	rule := "OTHER-ARCH(386): every obligation of the property is discharged again with the program loaded and type-checked for GOARCH=386 (int is 32 bits wide)"
+	cmd := exec.Command(self, "-prop", prop, "-goarch", "386", "-no-evidence")
+	cmd.Env = os.Environ()
+	b, err := cmd.CombinedOutput()
+	last := lastLine(string(b))
+	if err == nil && strings.HasPrefix(last, "PASS") {
+		r.Hold(prop+"/goarch=386", rule, "-", "re-run", last)
+		return
+	}
+	var det []string
+	for _, l := range strings.Split(string(b), "\n") {
+		if strings.Contains(l, "kind=") && len(det) < 8 {
+			det = append(det, strings.TrimSpace(l))
+		}
+	}
+	det = append(det, last)
+	r.Violate(prop+"/goarch=386", rule, "-", det...)
+}
